@@ -132,6 +132,54 @@ fn derived_problem(t1: &Tree, t2: &Tree, table: &Table, rng: &mut Rng) -> Option
     }
 }
 
+/// overloaded arithmetic on deep expressions with neutral constants that still carry variable
+/// names (results of symbolic steps): the result must list the sorted union
+fn neutral_with_names_problem(rng: &mut Rng) -> Option<String> {
+    let names = ["a", "m", "x", "y", "z", "k"];
+    let pick = |rng: &mut Rng| -> String {
+        let n = rng.range(1, 3);
+        let mut v: Vec<&str> = (0..n).map(|_| *rng.pick(&names)).collect();
+        v.sort();
+        v.dedup();
+        v.join(["+", "*", "-"][rng.below(3)])
+    };
+    let (t1, t2) = (pick(rng), pick(rng));
+    let which = rng.below(6);
+    let r = catch(|| -> Option<String> {
+        let e = DeepEx::<f64>::parse(&t1).ok()?;
+        let carrier = DeepEx::<f64>::parse(&t2).ok()?;
+        // zero and one that carry the variable names of `carrier`
+        let zero = (carrier.clone() * DeepEx::<f64>::zero()).ok()?;
+        let one = carrier.clone().pow(DeepEx::<f64>::zero()).ok()?;
+        let want = sorted_union(e.var_names(), carrier.var_names());
+        let (what, res) = match which {
+            0 => ("e + zero", e + zero),
+            1 => ("zero + e", zero + e),
+            2 => ("e * one", e * one),
+            3 => ("one * e", one * e),
+            4 => ("e / one", e / one),
+            _ => ("e.pow(one)", e.pow(one)),
+        };
+        let res = res.ok()?;
+        if res.var_names() != want.as_slice() {
+            return Some(format!("{what} with e = {t1}, neutral element carrying the variables of {t2}: result lists {:?}, expected the sorted union {want:?}", res.var_names()));
+        }
+        let vals: Vec<f64> = (0..want.len()).map(|i| 0.7 + i as f64).collect();
+        if res.eval(&vals).is_err() {
+            return Some(format!("{what} with e = {t1} (neutral element from {t2}) does not evaluate with the union's number of values"));
+        }
+        let f = FlatEx::<f64>::from_deepex(res).ok()?;
+        if f.var_names() != want.as_slice() {
+            return Some(format!("{what}: the flat form lists {:?}, expected {want:?}", f.var_names()));
+        }
+        None
+    });
+    match r {
+        Ok(p) => p,
+        Err(m) => Some(format!("panic: {m}")),
+    }
+}
+
 /// shipped tables: f64 (incl. derivative) and Val
 fn shipped_problem(rng: &mut Rng, st: &mut Stats) -> Option<(String, String)> {
     let use_val = rng.chance(1, 2);
@@ -268,6 +316,12 @@ pub fn run(ctx: &Ctx) -> i32 {
                     st.violation(format!("derived|{}", p.chars().take(60).collect::<String>()), p.len(), json!({"kind": "derived-variables", "table": table_desc(&table), "problem": p}));
                 }
             }
+            if i % 8 == 4 {
+                st.bump("neutral_elements_with_names_checks");
+                if let Some(p) = neutral_with_names_problem(rng) {
+                    st.violation(format!("neutral|{}", p.chars().take(70).collect::<String>()), p.len(), json!({"kind": "derived-variables-neutral-element", "problem": p}));
+                }
+            }
             if i % 8 == 0 {
                 if let Some((text, p)) = shipped_problem(rng, st) {
                     st.violation(format!("shipped|{}", p.chars().take(60).collect::<String>()), text.len(), json!({"kind": "shipped-table-variables", "text": text, "problem": p}));
@@ -290,6 +344,7 @@ pub fn run(ctx: &Ctx) -> i32 {
     .require("names_greek", 1000)
     .require("arity_probes", 10000)
     .require("derived_expression_checks", 1000)
+    .require("neutral_elements_with_names_checks", 1000)
     .require("shipped_table_texts", 1000);
     finish(ctx, stats, report)
 }
